@@ -2,10 +2,10 @@
    Only statements closed by `exact`; proofs live in Vpsc/KKT.v (certificate theory) and Vpsc/VpscRefute.v.
    What is proved: the KKT certificate is sufficient for optimality and uniqueness for every n, m, weights > 0, any
    scales (kkt_sufficient), the boolean checker the check runs on the real solver's output is sound (kkt_ok_sound,
-   kkt_gap_sound), the optimum is independent of the constraint order.  What is REFUTED on the faithful model (and
-   replayed on the real code by checks/c02.py): "IncSolver::solve always returns the optimum" fails for re-solves
-   after desired positions moved (C02_solve_optimal_refuted).  "solve reaches a KKT point on a fresh solver" is not
-   proved (see C02_solve_certified_partial). *)
+   kkt_gap_sound), the optimum is independent of the constraint order.  REFUTED for the solve() loop before /repo
+   676ca34 (C02_solve_optimal_refuted_before_fix; the witness replayed on the real code and is in the corpus).
+   "solve reaches a KKT point" for the current loop is not proved (see C02_solve_certified_partial): it is decided
+   per run by the certificate. *)
 From Coq Require Import Permutation.
 From Adapt Require Import Num.Qaux Vpsc.VpscSpec Vpsc.KKT Vpsc.VpscModel Vpsc.VpscRefute.
 Local Open Scope Q_scope.
@@ -63,10 +63,10 @@ Proof.
 Qed.
 Print Assumptions C02_solve_certified_partial.
 
-Theorem C02_solve_optimal_refuted :
+Theorem C02_solve_optimal_refuted_before_fix :
   exists vs cs ops s' y,
-    run_ops 1000 (init vs cs) ops = Ok s' /\ no_flag s' = true /\
+    run_ops_before_fix 1000 (init vs cs) ops = Ok s' /\ no_flag s' = true /\
     feasible (svars s') (scons s') (place_of y) /\
     obj (svars s') (place_of y) < obj (svars s') (place_of (final_positions s')).
-Proof. exact solve_optimal_refuted. Qed.
-Print Assumptions C02_solve_optimal_refuted.
+Proof. exact solve_optimal_refuted_before_fix. Qed.
+Print Assumptions C02_solve_optimal_refuted_before_fix.
